@@ -184,6 +184,10 @@ def buildValid (res : Int) (raw : List (Nat × Rat)) : M (List BpmEv) :=
 namespace ImpIO
 open Chartparse.PyImp
 
+def pairUp : List Val → List (Val × Val)
+  | k :: v :: rest => (k, v) :: pairUp rest
+  | _ => []
+
 mutual
 partial def parseVal : List String → Option (Val × List String)
   | "I" :: n :: r => some (.int n.toInt!, r)
@@ -194,6 +198,7 @@ partial def parseVal : List String → Option (Val × List String)
   | "L" :: n :: r => (parseVals n.toNat! r).map fun p => (.list (Val.ofList p.1), p.2)
   | "U" :: n :: r => (parseVals n.toNat! r).map fun p => (.tup (Val.ofList p.1), p.2)
   | "O" :: cls :: n :: r => (parseFields n.toNat! r).map fun p => (.obj cls p.1, p.2)
+  | "D" :: n :: r => (parseVals (2 * n.toNat!) r).map fun p => (.dict (encEntries (pairUp p.1)), p.2)
   | _ => none
 partial def parseVals : Nat → List String → Option (List Val × List String)
   | 0, r => some ([], r)
@@ -221,6 +226,9 @@ partial def showVal : Val → String
     | some l => s!"U {l.length}" ++ String.join (l.map fun v => " " ++ showVal v)
     | none => "?spine"
   | .obj cls fs => s!"O {cls}" ++ showFields fs 0 ""
+  | .dict sp => match dictEntries sp with
+    | some l => s!"D {l.length}" ++ String.join (l.map fun kv => " " ++ showVal kv.1 ++ " " ++ showVal kv.2)
+    | none => "?dict"
   | _ => "?"
 where
   showFields : Val → Nat → String → String
